@@ -104,6 +104,7 @@ package main
 
 //@ func (*DialogBasedBackend).RemoveDialog
 //@   props C15 C04
+//@   event unpins: dialog
 //@   modifies mapof(dbb.backends)
 //@   ensures !has(dbb.backends, dialog)
 //@   ensures mapframe: forall k string :: k != dialog ==> has(dbb.backends, k) == old(has(dbb.backends, k)) && dbb.backends[k] == old(dbb.backends[k])
@@ -130,7 +131,6 @@ package main
 //@ func (*DialogBasedBackend).AddBackend
 //@   props C15 C04
 //@   requires dbb.timeout >= 0
-//@   requires 0 <= expireSeconds && expireSeconds <= 2147483647
 //@   modifies mapof(dbb.backends), dbb.nextCleanTime, now
 //@   ensures clock: now >= old(now)
 //@   ensures pinned: has(dbb.backends, dialog) ==> dbb.backends[dialog].backend == backend
@@ -138,6 +138,8 @@ package main
 //@   ensures lifetime-expires: has(dbb.backends, dialog) ==> dbb.backends[dialog].expire >= old(now) + expireSeconds * 1000000000
 //@   ensures lifetime-exact: has(dbb.backends, dialog) ==> dbb.backends[dialog].expire <= now + dbb.timeout || dbb.backends[dialog].expire <= now + expireSeconds * 1000000000
 //@   ensures lost-only-if-elapsed: !has(dbb.backends, dialog) ==> now > old(now) + dbb.timeout && now > old(now) + expireSeconds * 1000000000
+//@   event pins: dialog
+//@   event pinBackends: backend
 //@   ensures no-new-keys: forall k string :: k != dialog && has(dbb.backends, k) ==> old(has(dbb.backends, k)) && dbb.backends[k] == old(dbb.backends[k])
 //@   ensures unexpired-kept: forall k string :: k != dialog && old(has(dbb.backends, k)) && old(dbb.backends[k]).expire >= now ==> has(dbb.backends, k)
 //@   ensures sweep-when-due: old(dbb.nextCleanTime) < old(now) ==> (forall k string :: k != dialog && has(dbb.backends, k) ==> dbb.backends[k].expire >= old(now))
@@ -301,7 +303,18 @@ package main
 //@ func (*Proxy).handleDialog
 //@   noinline
 //@ func (*Proxy).HandleMessage
-//@   noinline
+//@   props C02
+//@   requires msg != nil && p.dialogBasedBackends != nil
+//@   ensures r-pop: msg.request == nil ==> popvias == old(popvias) ++ seq1(msg)
+//@   ensures r-at-most-one: msg.request == nil ==> len(smMsg) <= len(old(smMsg)) + 1 && len(smMsg) >= len(old(smMsg)) && stb == old(stb)
+//@   ensures r-dest: msg.request == nil && len(smMsg) == len(old(smMsg)) + 1 ==> smMsg[len(old(smMsg))] == msg
+//@        && firstIdx(msg.headers, "Via") >= 0 && isType(msg.headers[firstIdx(msg.headers, "Via")].value, "*Via")
+//@        && len(asRef(msg.headers[firstIdx(msg.headers, "Via")].value, "*Via").params) >= 1
+//@        && smHost[len(old(smHost))] == hopHost(asRef(msg.headers[firstIdx(msg.headers, "Via")].value, "*Via").params[0])
+//@        && smPort[len(old(smPort))] == hopPort(asRef(msg.headers[firstIdx(msg.headers, "Via")].value, "*Via").params[0])
+//@        && smTransport[len(old(smTransport))] == asRef(msg.headers[firstIdx(msg.headers, "Via")].value, "*Via").params[0].Transport
+//@   ensures r-sent-iff-hop: msg.request == nil ==> ((len(smMsg) == len(old(smMsg)) + 1) ==
+//@        (firstIdx(msg.headers, "Via") >= 0 && isType(msg.headers[firstIdx(msg.headers, "Via")].value, "*Via") && len(asRef(msg.headers[firstIdx(msg.headers, "Via")].value, "*Via").params) >= 1))
 
 //@ func (*Proxy).receiveAndProcessMessage
 //@   props C19
@@ -454,6 +467,9 @@ package main
 
 // a decoded header value stored in the header list is never a typed nil pointer
 //@ fieldinv Header.value: isType($v, "string") || isNil($v) || allocated(refOf($v))
+// the entries of a decoded Via / Route are existing objects
+//@ fieldinv Via.params: forall k int :: 0 <= k && k < len($v) ==> allocated($v[k])
+//@ fieldinv Route.routeParams: forall k int :: 0 <= k && k < len($v) ==> allocated($v[k])
 
 //@ func parseViaParam
 //@   props C02 C08
@@ -486,6 +502,7 @@ package main
 
 //@ func (*Message).PopVia
 //@   props C02
+//@   event popvias: m
 //@   modifies Header.value, m.headers, Via.params
 //@   ensures none: firstIdx(old(m.headers), "Via") < 0 ==> result != nil
 //@   ensures failed-list: result != nil ==> m.headers == old(m.headers)
@@ -518,6 +535,7 @@ package main
 //@        && len(old(asRef(msg.headers[firstIdx(msg.headers, "Via")].value, "*Via").params)) >= 1 ==> err == nil
 //@   ensures frame: forall h *Header :: firstIdx(msg.headers, "Via") < 0 || h != msg.headers[firstIdx(msg.headers, "Via")] ==> h.value == old(h.value)
 //@   ensures typed-kept: firstIdx(msg.headers, "Via") >= 0 && isType(old(msg.headers[firstIdx(msg.headers, "Via")].value), "*Via") ==> (forall h *Header :: h.value == old(h.value))
+//@   ensures failed: err != nil ==> (forall h *Header :: h.value == old(h.value))
 
 // ---- lazy typed getters: decode the first header of that name in place, touch nothing else ----
 
@@ -592,3 +610,53 @@ package main
 //@   ensures badtype: firstIdx(m.headers, "Route") >= 0 && !isType(old(m.headers[firstIdx(m.headers, "Route")].value), "*Route") && !isType(old(m.headers[firstIdx(m.headers, "Route")].value), "string") ==> err != nil
 //@   ensures frame: forall h *Header :: firstIdx(m.headers, "Route") < 0 || h != m.headers[firstIdx(m.headers, "Route")] ==> h.value == old(h.value)
 //@   ensures ok-result: err == nil ==> result != nil && m.headers[firstIdx(m.headers, "Route")].value == anyRef("*Route", result)
+
+// the dialog timeout is never negative (established by NewDialogBasedBackend for non-negative configuration values)
+//@ fieldinv DialogBasedBackend.timeout: $v >= 0
+
+// ---- listeners as seen by the routing code: immutable identity (protocol, address, port) ----
+//@ iface ServerTransport.GetAddress
+//@   modifies nothing
+//@   ensures result == stAddr(self)
+//@ iface ServerTransport.GetPort
+//@   modifies nothing
+//@   ensures result == stPort(self)
+//@ iface ServerTransport.GetProtocol
+//@   modifies nothing
+//@   ensures result == stProto(self)
+
+// ---- relaying (C02 C03): sends are call events of sendMessage / sendToBackend ----
+//@ func (*Proxy).sendMessage
+//@   props C02 C12
+//@   ensures list-kept: msg.headers == old(msg.headers)
+//@   ensures values-frame: forall h *Header :: (firstIdx(msg.headers, "CSeq") < 0 || h != msg.headers[firstIdx(msg.headers, "CSeq")]) && (firstIdx(msg.headers, "Via") < 0 || h != msg.headers[firstIdx(msg.headers, "Via")]) ==> h.value == old(h.value)
+//@   ensures via-typed-kept: firstIdx(msg.headers, "Via") >= 0 && isType(old(msg.headers[firstIdx(msg.headers, "Via")].value), "*Via") ==> msg.headers[firstIdx(msg.headers, "Via")].value == old(msg.headers[firstIdx(msg.headers, "Via")].value)
+//@   event smHost: host
+//@   event smPort: port
+//@   event smTransport: transport
+//@   event smMsg: msg
+
+//@ func (*Proxy).sendToBackend
+//@   noinline
+//@   event stb: msg
+
+// ---- summaries that keep callers' verification conditions small ----
+
+//@ func (*Message).String
+//@   props C01
+//@   modifies W
+
+//@ func (*Message).GetDialog
+//@   props C16 C04
+//@   modifies Header.value, W
+//@   ensures values-frame: forall h *Header :: (firstIdx(m.headers, "From") < 0 || h != m.headers[firstIdx(m.headers, "From")]) && (firstIdx(m.headers, "To") < 0 || h != m.headers[firstIdx(m.headers, "To")]) ==> h.value == old(h.value)
+
+// (request-side helpers: summarised here by their static mod sets; their own contracts are given where claimed)
+//@ func (*Proxy).getNextRequestHop
+//@   noinline
+//@ func (*MyName).isMyMessage
+//@   noinline
+//@ func (*Proxy).addVia
+//@   noinline
+//@ func (*Proxy).addRecordRoute
+//@   noinline
